@@ -238,6 +238,32 @@ Theorem C13_label_deterministic (f : string -> option nat) (keys : list string) 
 Proof. exact (run_gets_spec f keys [] (cache_ok_nil f)). Qed.
 Print Assumptions C13_label_deterministic.
 
+(* sessions: whatever the caller did before -- lookups of any labels on any CDXMLFile object of the file, through any
+   accessor, direct parses, IN-PLACE EDITS of molecules handed out earlier -- every lookup answers what the drawing says
+   (the only state a CDXMLFile object keeps is the label -> fragment cache, which only memoises) *)
+Theorem C13_session_lookup_describes_drawing (f : string -> option nat) (parse : option nat -> res mol) (evs : list sev) :
+  session_answers f parse s_init evs = somes (map (lookup_spec f parse) evs).
+Proof. exact (session_answers_spec f parse evs s_init (caches_ok_init f)). Qed.
+Print Assumptions C13_session_lookup_describes_drawing.
+(* ... and a molecule handed out belongs to the caller: it changes only through the caller's own edits of it *)
+Theorem C13_session_result_belongs_to_caller (f : string -> option nat) (parse : option nat -> res mol) (evs : list sev)
+  (st : sstate) (h : nat) (m : mol) :
+  nth_error (s_heap st) h = Some m -> forallb (fun e => negb (edits_of h e)) evs = true ->
+  nth_error (s_heap (session_end f parse st evs)) h = Some m.
+Proof. exact (session_frame f parse evs st h m). Qed.
+Print Assumptions C13_session_result_belongs_to_caller.
+(* non-vacuity: look "a" up, edit the result (it becomes the empty molecule), look "a" up again, parse drawing 0 directly:
+   three answers, all the drawing; the first molecule holds the edit, the second one is untouched *)
+Example C13_session_nonvacuous :
+  let nd i := mkNode i NTAbsent None None None RadAbsent None None None None None [] in
+  let fr := (XFrag [(nd "1", None); (nd "2", None)] [mkXBond "1" "2" OAbsent DAbsent])%string in
+  let f := fun k => cache_get k [("a", 0%nat)]%string in
+  let evs := [EGet 0 "a" Raise; EEdit 0 (mkMol [] [] 0 1); EGet 0 "a" Raise; EParse 0 Raise]%string in
+  session_answers f (parse_at [fr]) s_init evs = [expand fr; expand fr; expand fr]
+  /\ (exists m, expand fr = Ok m /\ List.length (m_atoms m) = 2%nat
+        /\ s_heap (session_end f (parse_at [fr]) s_init evs) = [mkMol [] [] 0 1; m; m]).
+Proof. vm_compute. split; [reflexivity|]. eexists. repeat split; reflexivity. Qed.
+
 (* non-vacuity of the assembly theorems: a hapto drawing (centre bonded to a multi-attachment node over three
    atoms, one charged radical) assembles, with 4 atoms, 3 Ligand bonds, charge -1, multiplicity 2 *)
 Example C13_assemble_nonvacuous :
